@@ -7,6 +7,8 @@ pub mod model;
 pub mod orule;
 pub mod oleap;
 pub mod ozone;
+pub mod dtinv;
+pub mod search;
 pub mod run;
 pub mod props;
 pub mod known;
